@@ -337,6 +337,17 @@ def check_c38(A: Analysis, col: Collector):
     level_note="Trusted: subprocess.run(env=...) replaces the child's environment with exactly the given mapping.",
 )
 def check_c39(A: Analysis, col: Collector):
+    # the subprocess wrappers hand the env= mapping on untouched
+    for q in (f"{ENV_BASE}.execute", f"{ENV_BASE}.read_and_display"):
+        w = A.func(q)
+        col.scope(w.qualname)
+        touched = [n for n in walk_own(w.node) if (isinstance(n, ast.Constant) and n.value == "env" and not isinstance(getattr(n, "_parent", None), ast.Expr)) or (isinstance(n, ast.Name) and n.id == "env")]
+        # docstrings mention env; only code counts
+        touched = [n for n in touched if not (isinstance(getattr(n, "_parent", None), ast.Expr))]
+        if touched:
+            col.fail("C39.env", w.qualname, "env-rewritten-in-subprocess-wrapper", f"{w.name} takes the `env` mapping out of its keyword arguments and rebuilds it (`{norm(next(p_ for p_ in parents(touched[0]) if isinstance(p_, ast.stmt)), 70)}`): variables can be dropped or altered between Lmod.execute and the subprocess call (e.g. a filter on truthiness drops every variable whose value is the empty string)", A.loc(touched[0]))
+        else:
+            col.ok("C39.env", f"{w.name} forwards its keyword arguments (env=) to the subprocess call unchanged", A.loc(w.node))
     ex = A.func("pydra.environments.lmod.Lmod.execute")
     col.scope(ex.qualname)
     calls = [c for c in A.calls(ex) if any(q.endswith("environments.base.execute") for q in A.callee_names(c, ex))]
